@@ -237,9 +237,9 @@ func c04Cells(w *Worker) {
 			}
 		}
 	}
-	// family grammars with precedence
+	// family grammars with precedence, and those whose conflicts the defaults decide
 	for _, n := range gram.Families() {
-		if len(n.Spec.Prec) > 0 && w.Mine(idx) {
+		if (len(n.Spec.Prec) > 0 || famHasDecidedConflicts(n.Spec)) && w.Mine(idx) {
 			c04OneCellCase(w, &GCase{Origin: "family:" + n.Name, Spec: n.Spec})
 			c04RefSentences(w, &GCase{Origin: "family:" + n.Name, Spec: n.Spec}, 7)
 		}
@@ -248,6 +248,16 @@ func c04Cells(w *Worker) {
 }
 
 func cellKey(s *gram.Spec) string { return s.Key() }
+
+// famHasDecidedConflicts: the grammar is usable, has conflicts and the statement decides every one of them.
+func famHasDecidedConflicts(s *gram.Spec) bool {
+	g := ref.FromSpec(s)
+	if !g.Usable() {
+		return false
+	}
+	t := g.LR0().Table()
+	return !t.ConflictFree && t.AllJudged()
+}
 
 func c04OneCellCase(w *Worker, c *GCase) {
 	w.Count("evaluations", 1)
@@ -878,8 +888,39 @@ func c04RefSentences(w *Worker, c *GCase, maxLen int) {
 		return
 	}
 	vw, err := ygo.NewView(res.V, g)
-	if err != nil {
+	if err != nil && (vw == nil || !vw.RulesDiffer) {
 		return
+	}
+	// reductions are compared by the TEXT of the rule reduced (yaccgo's own rule list on its side, the
+	// file's on the reference side), so that a rule list in another order than the file's is judged too:
+	// "the rule that appears first in the grammar file" is about the file
+	ownText := func(reds []int) []string {
+		var out []string
+		for _, r := range reds {
+			if r <= 0 || r >= len(res.V.G.ProductoinRules) {
+				out = append(out, fmt.Sprintf("rule %d", r))
+				continue
+			}
+			pr := res.V.G.ProductoinRules[r]
+			parts := []string{g.Names[vw.SymToRef[pr.LeftPart.ID]], "->"}
+			for _, x := range pr.RighPart {
+				parts = append(parts, g.Names[vw.SymToRef[x.ID]])
+			}
+			out = append(out, strings.Join(parts, " "))
+		}
+		return out
+	}
+	refText := func(reds []int) []string {
+		var out []string
+		for _, r := range reds {
+			rr := g.Rules[r]
+			parts := []string{g.Names[rr.L], "->"}
+			for _, x := range rr.R {
+				parts = append(parts, g.Names[x])
+			}
+			out = append(out, strings.Join(parts, " "))
+		}
+		return out
 	}
 	key := cellKey(c.Spec)
 	refM := refMachine(g, t)
@@ -929,10 +970,10 @@ func c04RefSentences(w *Worker, c *GCase, maxLen int) {
 			wantOut, wantReds := run(refM, toks, false)
 			for name, m := range machines {
 				gotOut, gotReds := run(m, toks, true)
-				if gotOut != wantOut || (wantOut == lrm.Accepted && fmt.Sprint(gotReds) != fmt.Sprint(wantReds)) {
+				if gotOut != wantOut || (wantOut == lrm.Accepted && fmt.Sprint(ownText(gotReds)) != fmt.Sprint(refText(wantReds))) {
 					violated = true
 					in := tokString(g, toks, g.EOF())
-					w.Violate("C04|grouping-differs-from-declarations|"+name+"|"+key, fmt.Sprintf("grammar [%s], input [%s]: a parser built to the declarations answers %s with reductions %v, yaccgo's %s table answers %s with reductions %v", key, in, wantOut, redText(g, wantReds), name, gotOut, redText(g, gotReds)), c,
+					w.Violate("C04|grouping-differs-from-declarations|"+name+"|"+key, fmt.Sprintf("grammar [%s], input [%s]: a parser built to the declarations answers %s with reductions %v, yaccgo's %s table answers %s with reductions %v", key, in, wantOut, refText(wantReds), name, gotOut, ownText(gotReds)), c,
 						map[string]interface{}{"grammar_text": text, "input": in, "table": name})
 					return
 				}
